@@ -166,15 +166,15 @@ class Executor:
         w = self.world
         k = op["op"]
         if k == "write":
-            return w.op_write(op["path"], op["content"])
+            return w.op_write(op["path"], op["content"], op.get("mtime_delta", 0.0))
         if k == "delete":
             return w.op_delete(op["path"])
         if k == "rename":
-            return w.op_rename(op["src"], op["dst"])
+            return w.op_rename(op["src"], op["dst"], op.get("overwrite", False))
         if k == "touch":
             return w.op_touch(op["path"])
         if k == "swap":
-            return w.op_swap(op["a"], op["b"])
+            return w.op_swap(op["a"], op["b"], op.get("by_rename", False))
         if k == "mkdir":
             return w.op_mkdir(op["path"])
         if k == "corrupt":
